@@ -28,8 +28,9 @@ def gen_case(rng):
     for _ in range(rng.choice([1, 1, 1, 2, 3])):
         mx, mn, fr = rng.randint(1, 8), rng.choice([0, 0, 1, 2, 3, 5, 6]), rng.choice([1, 1, 2, 3])
         cfg = dict(max_gen=mx, threshold=rng.choice([0, 2, 5]), freq=fr, min_gen=mn,
-                   stag=rng.choice([None, None, 1, 2, 3, 4]), max_evals=rng.choice([None, None, 5, 12, 20, 40]),
-                   max_time=rng.choice([None, None, None, "1/4", "1", "5/2", "4", "10"]))
+                   # limits of zero are limits like any other: already met at entry
+                   stag=rng.choice([None, None, 1, 2, 3, 4, 0]), max_evals=rng.choice([None, None, 5, 12, 20, 40, 0, 0]),
+                   max_time=rng.choice([None, None, None, "1/4", "1", "5/2", "4", "10", "0"]))
         tape = []
         mode = rng.choice(["down", "flat", "wild", "nan"])
         cur = rng.randint(3, 9)
